@@ -342,7 +342,12 @@ def run_check(prop, tier, seed, replay=None):
                     shutil.rmtree(outdir, ignore_errors=True)
                 if mon_viol:
                     break
-        for v in mon_viol[:5]:
+        # one replay per distinct signature first, then the rest, six in all
+        _seen, _first, _rest = set(), [], []
+        for v in mon_viol:
+            (_rest if v["signature"] in _seen else _first).append(v)
+            _seen.add(v["signature"])
+        for v in (_first + _rest)[:6]:
             v = dict(v); v["tier"] = tier
             p = write_replay(prop, "monitor_%s_%d_%d" % (re.sub(r"\W", "_", v["signature"]), v["case"], v["step"]), v)
             violations.append((p, ""))
